@@ -35,12 +35,18 @@ type ServeCase struct {
 	Segs     []int  `json:"segs"` // segments per version (content = segs*8000-1 bytes)
 	Readers  int    `json:"readers"`
 	Procs    int    `json:"procs"`
+	// Retire: while version k+1 is being published another goroutine removes version k-1 (its
+	// segments by prefix, its metadata packet by name), as an application that keeps the last
+	// two versions does. What it removed must not be served any more -- neither while the
+	// producer's transaction is open nor after it has been committed (seeded C15-r6-1: a
+	// removal during an open transaction went to the transaction's scratch tree).
+	Retire bool `json:"retire,omitempty"`
 }
 
 func genServeCase(t *rapid.T) ServeCase {
 	c := ServeCase{Store: rapid.SampledFrom([]string{"memory", "memory", "bolt"}).Draw(t, "store"),
 		Versions: rapid.IntRange(2, 12).Draw(t, "versions"), Readers: rapid.IntRange(1, 6).Draw(t, "readers"),
-		Procs: rapid.SampledFrom([]int{2, 4, 8}).Draw(t, "procs")}
+		Procs: rapid.SampledFrom([]int{2, 4, 8}).Draw(t, "procs"), Retire: rapid.IntRange(0, 2).Draw(t, "retire") != 0}
 	for i := 0; i < c.Versions; i++ {
 		c.Segs = append(c.Segs, rapid.SampledFrom([]int{1, 1, 2, 3, 8, 20}).Draw(t, "segs"))
 	}
@@ -154,12 +160,54 @@ func execServe(c ServeCase) (res evid.Result) {
 		}(r)
 	}
 
+	var removed []enc.Name // (written by one retirer at a time, read after it has finished)
+	var retiredDuring atomic.Int64
 	for vi := 0; vi < c.Versions; vi++ {
 		ver := uint64(vi + 1)
 		content := contentOf(uint32(vi+7), c.Segs[vi]*8000-1)
+		var rwg sync.WaitGroup
+		if c.Retire && ver >= 3 {
+			old := ver - 2
+			rwg.Add(1)
+			go func() {
+				defer rwg.Done()
+				defer func() {
+					if p := recover(); p != nil {
+						errc <- fmt.Errorf("panic while removing version %d from the store: %v", old, p)
+					}
+				}()
+				runtime.Gosched()
+				during := publishing.Load()
+				vp := append(obj.Clone(), enc.NewVersionComponent(old))
+				mn := metaName(obj, old)
+				if err := st.Remove(vp, true); err != nil {
+					errc <- fmt.Errorf("Remove(%s, prefix) failed: %v", vp, err)
+					return
+				}
+				if err := st.Remove(mn, false); err != nil {
+					errc <- fmt.Errorf("Remove(%s) failed: %v", mn, err)
+					return
+				}
+				if during && publishing.Load() {
+					retiredDuring.Add(1)
+				}
+				gone := []enc.Name{mn}
+				for sg := 0; sg < c.Segs[old-1]; sg++ {
+					gone = append(gone, segName(obj, old, sg))
+				}
+				for _, n := range gone {
+					if w, _ := st.Get(n, false); w != nil {
+						errc <- fmt.Errorf("Remove of version %d had returned (while version %d was being published); Get(%s) still serves the packet", old, ver, n)
+						return
+					}
+				}
+				removed = append(removed, gone...)
+			}()
+		}
 		publishing.Store(true)
 		_, err := cl.Produce(object.ProduceArgs{Name: obj, Content: enc.Wire{content}, Version: &ver})
 		publishing.Store(false)
+		rwg.Wait()
 		if err != nil {
 			close(stop)
 			wg.Wait()
@@ -187,6 +235,17 @@ func execServe(c ServeCase) (res evid.Result) {
 		res.Err = err
 		return res
 	default:
+	}
+	// afterwards: nothing that was removed is served (the transactions that were open during the
+	// removals have long been committed)
+	for _, n := range removed {
+		if w, _ := st.Get(n, false); w != nil {
+			res.Err = fmt.Errorf("after everything was published and version(s) retired, Get(%s) still serves a packet that had been removed", n)
+			return res
+		}
+	}
+	if retiredDuring.Load() > 0 {
+		res.Classes = append(res.Classes, "version-removed-while-a-transaction-was-open")
 	}
 	// afterwards: the newest version is served
 	for _, prefix := range []enc.Name{obj, append(obj.Clone(), metaKeyword)} {
